@@ -480,6 +480,15 @@ func (e *SpecEnv) localByName(name string) *Val {
 		}
 	}
 	if best == nil {
+		// a variable of the function that has no value on this path (its declaration was not executed): the
+		// clause has to hold whatever it is - an unconstrained value (conservative, never an assumption)
+		for _, b := range fr.fn.Blocks {
+			for _, in := range b.Instrs {
+				if a, ok := in.(*ssa.Alloc); ok && a.Comment == name {
+					return freshVal(derefType(a.Type()), "nopath."+name, e.te)
+				}
+			}
+		}
 		return nil
 	}
 	p := fr.regs[best]
